@@ -115,15 +115,16 @@ fn sexp(t: &T, o: &mut String) {
     }
 }
 
-/// minimal parentheses per the documented table; `tight` leaves out optional blanks
-fn print(t: &T, tight: bool, o: &mut String) {
+/// minimal parentheses per the documented table; `tight` leaves out optional blanks; `all` puts every operand, callee,
+/// argument and tuple item into (redundant) parentheses as well - they must not change the tree
+fn print_mode(t: &T, tight: bool, all: bool, o: &mut String) {
     let paren = |x: &T, need: bool, o: &mut String| {
-        if need {
+        if need || all {
             o.push('(');
-            print(x, tight, o);
+            print_mode(x, tight, all, o);
             o.push(')');
         } else {
-            print(x, tight, o);
+            print_mode(x, tight, all, o);
         }
     };
     match t {
@@ -158,7 +159,7 @@ fn print(t: &T, tight: bool, o: &mut String) {
                 if i > 0 {
                     o.push_str(if tight { "," } else { ", " });
                 }
-                print(a, tight, o);
+                paren(a, false, o);
             }
             o.push(')');
         }
@@ -180,7 +181,7 @@ fn print(t: &T, tight: bool, o: &mut String) {
                 if i > 0 {
                     o.push_str(if tight { "," } else { ", " });
                 }
-                print(a, tight, o);
+                paren(a, false, o);
             }
             // a one-element tuple is written with its trailing comma (`(e,)`; `(e)` is a parenthesised expression);
             // longer tuples may carry one (here: in the spaced print when the first item is a number)
@@ -190,6 +191,10 @@ fn print(t: &T, tight: bool, o: &mut String) {
             o.push(')');
         }
     }
+}
+
+fn print(t: &T, tight: bool, o: &mut String) {
+    print_mode(t, tight, false, o)
 }
 
 fn ast_sexp(e: &ast::ast::Expr, o: &mut String) -> Result<(), String> {
@@ -405,12 +410,12 @@ fn tree_class(t: &T) -> &'static str {
 }
 
 fn check_batch(c: &mut Case, trees: &[T], workload: &str) {
-    for tight in [false, true] {
+    for (tight, all) in [(false, false), (true, false), (false, true)] {
         let texts: Vec<String> = trees
             .iter()
             .map(|t| {
                 let mut s = String::new();
-                print(t, tight, &mut s);
+                print_mode(t, tight, all, &mut s);
                 s
             })
             .collect();
